@@ -439,6 +439,7 @@ func checkC18(ctx *Ctx, r *Report) {
 	c18LiteralsShareSlicesSelfTest(ctx, r)
 	c18NilnessOfCollections(ctx, r)
 	c18NilnessSelfTest(ctx, r)
+	c18SpreadFieldsCopied(ctx, r)
 }
 
 // c18IRCopies runs the copy analysis over the DeepCopy methods of the IR: the properties that rest on "each language /
@@ -1448,4 +1449,52 @@ import "github.com/grafana/cog/internal/ast"
 func plain(d ast.DisjunctionType) bool {
 	return d.Discriminator == "" || len(d.DiscriminatorMapping) == 0
 }`, c18NilnessOfCollections)
+}
+
+// c18SpreadFieldsCopied: a pass that builds a new struct out of the fields of an existing one (`ast.NewStruct(x.Fields...)`)
+// duplicates that struct: the new type must not share the field slice, nor the types the fields point to, with the
+// original — the operand spread into the constructor goes through DeepCopy (or is a slice local to the function).
+// Same for the value type of an array rebuilt from an existing one.
+func c18SpreadFieldsCopied(ctx *Ctx, r *Report) {
+	n := 0
+	ctx.AllFuncDecls(func(p *packages.Package, fd *ast.FuncDecl, obj *types.Func) {
+		if fd.Body == nil || !strings.HasSuffix(p.PkgPath, "/internal/ast/compiler") {
+			return
+		}
+		info := p.TypesInfo
+		ast.Inspect(fd.Body, func(m ast.Node) bool {
+			c, ok := m.(*ast.CallExpr)
+			if !ok || len(c.Args) == 0 {
+				return true
+			}
+			fn := callee(info, c)
+			if fn == nil || fn.Pkg() == nil || !strings.HasSuffix(fn.Pkg().Path(), "internal/ast") {
+				return true
+			}
+			var operand ast.Expr
+			what := ""
+			switch {
+			case fn.Name() == "NewStruct" && c.Ellipsis.IsValid():
+				operand, what = c.Args[len(c.Args)-1], "fields"
+			case fn.Name() == "NewArray":
+				operand, what = c.Args[0], "value type"
+			default:
+				return true
+			}
+			// only operands taken out of an existing type: a selector chain ending in .Fields / .ValueType
+			sel, ok := ast.Unparen(operand).(*ast.SelectorExpr)
+			if !ok || (sel.Sel.Name != "Fields" && sel.Sel.Name != "ValueType") {
+				if cc, ok := ast.Unparen(operand).(*ast.CallExpr); !ok || !strings.HasSuffix(exprString(cc.Fun), ".DeepCopy") {
+					return true
+				}
+			}
+			n++
+			copied := strings.Contains(exprString(operand), "DeepCopy()")
+			r.Check(copied, "copycheck/spread-fields-copied", fmt.Sprintf("%s builds a type from the %s of %s", ctx.FuncName(obj), what, exprString(operand)), c.Pos(), "the "+what+" are duplicated first",
+				fmt.Sprintf("%s builds a new type from %s as it is: the new type shares the field slice and every type below it with the original — with `A: Base; B: Base` both aliases get the same *RefType for `target`, and a later pass (PrefixObjectNames) renames it once through each: PA.target refers to PPTarget, which does not exist", ctx.FuncName(obj), exprString(operand)))
+			return true
+		})
+	})
+	r.Count("types rebuilt from the parts of an existing type", n)
+	r.Floor("types rebuilt from the parts of an existing type", 2)
 }
